@@ -94,8 +94,53 @@ def gen_case(rng, idx):
             for t in range(1, n):
                 if rng.random() < 0.7:
                     row[t] = row[t - 1]
-    return {"idx": idx, "swbs": swbs, "ends": [list(e) for e in ends], "status": status, "n": n, "shape": shape,
+    second = [[bool(rng.random() < 0.5) for _ in range(n)] for _ in ends] if (ends and rng.random() < 0.5) else None
+    return {"idx": idx, "swbs": swbs, "ends": [list(e) for e in ends], "status": status, "n": n, "shape": shape, "second": second,
             "api": str(rng.choice(["all", "each"])), "dtype": str(rng.choice(["bool", "int", "float"], p=[0.5, 0.25, 0.25]))}
+
+
+def verify(ctx, sys_, swbs, ends, status, n, where, model, label):
+    """predicates + correspondence for the configuration now held by the system; False when malformed"""
+    idx = [int(i) for i in sys_.bus_configuration_change_index]
+    maps = [{int(k): int(v) for k, v in m.items()} for m in sys_.switchboard2bus]
+    no_bus = [int(x) for x in sys_.no_bus]
+    # ---- predicate: per step, the period's map must be the connectivity partition of that step
+    if not ends:
+        n_eff = 1
+    else:
+        n_eff = n
+    if len(maps) != len(idx) or len(no_bus) != len(idx) or (idx and idx[0] != 0) or idx != sorted(set(idx)):
+        ctx.fail("predicate", "change-index-malformed", f"{label}change index {idx}, {len(maps)} maps, {len(no_bus)} counts", where)
+        return False
+    for t in range(n_eff):
+        period = max(i for i, s in enumerate(idx) if s <= t)
+        closed = [row[t] for row in status] if ends else []
+        want = union_find(swbs, ends, closed)
+        got = partition_of(maps[period])
+        if got != want:
+            ctx.fail("predicate", "grouping-not-connectivity",
+                     f"{label}step {t}: closed {closed} of {ends}: buses {sorted(map(sorted, got))} expected {sorted(map(sorted, want))}", where)
+            break
+        if no_bus[period] != len(want):
+            ctx.fail("predicate", "bus-count", f"{label}step {t}: no_bus {no_bus[period]} for {len(want)} groups", where)
+            break
+        ids = sorted(set(maps[period].values()))
+        if ids != list(range(1, len(ids) + 1)):
+            ctx.count("bus_ids_not_consecutive")
+    # ---- correspondence
+    if model and ctx.model_available and ends:
+        out = ctx.model.call("bus.config", swbs=swbs, ends=[list(e) for e in ends], status=status, n=n)
+        if out["change_idx"] != idx:
+            ctx.fail("correspondence", "change-index", f"{label}model {out['change_idx']} impl {idx}", where)
+        else:
+            for i, per in enumerate(out["periods"]):
+                if partition_of({a: b for a, b in per["map"]}) != partition_of(maps[i]):
+                    ctx.fail("correspondence", "partition", f"period {i}: model {per['map']} impl {maps[i]}", where)
+                    break
+                if per["no_bus"] != no_bus[i]:
+                    ctx.fail("correspondence", "bus-count", f"period {i}: model {per['no_bus']} impl {no_bus[i]}", where)
+                    break
+    return True
 
 
 def run_case(ctx, case, model=True):
@@ -112,56 +157,36 @@ def run_case(ctx, case, model=True):
         tag = "grouping-raises-" + core.error_class(e)
         ctx.fail("predicate", tag, f"constructor (all breakers closed) raised {type(e).__name__}: {e}", where)
         return False
+    dt = {"bool": bool, "int": int, "float": float}[case.get("dtype", "bool")]
+    table = np.array(status, dtype=dt).T.reshape(n, len(ends)) if ends else None
+    rows = [np.array(row, dtype=dt) for row in status]
+
+    def assign():
+        if case["api"] == "all":
+            sys_.set_bus_tie_status_all(table)
+        else:
+            sys_.set_bus_tie_status([(i + 1, r) for i, r in enumerate(rows)])
     if ends:
-        dt = {"bool": bool, "int": int, "float": float}[case.get("dtype", "bool")]
         ctx.count("status_dtype", case.get("dtype", "bool"))
         try:
-            if case["api"] == "all":
-                sys_.set_bus_tie_status_all(np.array(status, dtype=dt).T.reshape(n, len(ends)))
-            else:
-                sys_.set_bus_tie_status([(i + 1, np.array(row, dtype=dt)) for i, row in enumerate(status)])
+            assign()
         except Exception as e:
             ctx.fail("predicate", "grouping-raises-" + core.error_class(e), f"set_bus_tie_status raised {type(e).__name__}: {e}", where)
             return False
-    idx = [int(i) for i in sys_.bus_configuration_change_index]
-    maps = [{int(k): int(v) for k, v in m.items()} for m in sys_.switchboard2bus]
-    no_bus = [int(x) for x in sys_.no_bus]
-    # ---- predicate: per step, the period's map must be the connectivity partition of that step
-    if not ends:
-        n_eff = 1
-    else:
-        n_eff = n
-    if len(maps) != len(idx) or len(no_bus) != len(idx) or (idx and idx[0] != 0) or idx != sorted(set(idx)):
-        ctx.fail("predicate", "change-index-malformed", f"change index {idx}, {len(maps)} maps, {len(no_bus)} counts", where)
+    if not verify(ctx, sys_, swbs, ends, status, n, where, model, "") or not ends or not case.get("second"):
         return True
-    for t in range(n_eff):
-        period = max(i for i, s in enumerate(idx) if s <= t)
-        closed = [row[t] for row in status] if ends else []
-        want = union_find(swbs, ends, closed)
-        got = partition_of(maps[period])
-        if got != want:
-            ctx.fail("predicate", "grouping-not-connectivity",
-                     f"step {t}: closed {closed} of {ends}: buses {sorted(map(sorted, got))} expected {sorted(map(sorted, want))}", where)
-            break
-        if no_bus[period] != len(want):
-            ctx.fail("predicate", "bus-count", f"step {t}: no_bus {no_bus[period]} for {len(want)} groups", where)
-            break
-        ids = sorted(set(maps[period].values()))
-        if ids != list(range(1, len(ids) + 1)):
-            ctx.count("bus_ids_not_consecutive")
-    # ---- correspondence
-    if model and ctx.model_available and ends:
-        out = ctx.model.call("bus.config", swbs=swbs, ends=[list(e) for e in ends], status=status, n=n)
-        if out["change_idx"] != idx:
-            ctx.fail("correspondence", "change-index", f"model {out['change_idx']} impl {idx}", where)
-        else:
-            for i, per in enumerate(out["periods"]):
-                if partition_of({a: b for a, b in per["map"]}) != partition_of(maps[i]):
-                    ctx.fail("correspondence", "partition", f"period {i}: model {per['map']} impl {maps[i]}", where)
-                    break
-                if per["no_bus"] != no_bus[i]:
-                    ctx.fail("correspondence", "bus-count", f"period {i}: model {per['no_bus']} impl {no_bus[i]}", where)
-                    break
+    # the caller updates its own status table in place and hands it over again: the new positions take effect
+    status2 = case["second"]
+    table[:, :] = np.array(status2, dtype=dt).T.reshape(n, len(ends))
+    for r, row in zip(rows, status2):
+        r[:] = np.array(row, dtype=dt)
+    ctx.count("second_assignment", "same-arrays-updated-in-place")
+    try:
+        assign()
+    except Exception as e:
+        ctx.fail("predicate", "grouping-raises-" + core.error_class(e), f"second set_bus_tie_status raised {type(e).__name__}: {e}", where)
+        return False
+    verify(ctx, sys_, swbs, ends, status2, n, where, model, "after the table was updated in place and handed over again: ")
     return True
 
 
